@@ -336,8 +336,7 @@ func c05Aggregate(c *Ctx) error {
 		var got []*pwr.Wound
 		cls, msg := lib.WithDeadline(20e9, func() error {
 			for _, w := range in {
-				cp := *w
-				inCh <- &cp
+				inCh <- &pwr.Wound{Kind: w.Kind, Index: w.Index, Start: w.Start, End: w.End}
 			}
 			close(inCh)
 			for w := range out {
